@@ -22,7 +22,9 @@ import (
 	"path/filepath"
 	"strings"
 
+	oci "github.com/opencontainers/runtime-spec/specs-go"
 	orderedyaml "gopkg.in/yaml.v3"
+	"sigs.k8s.io/yaml"
 )
 
 func chooseFormat(format string, path string) string {
@@ -47,6 +49,10 @@ func marshalObject(level int, obj interface{}, format string) string {
 		raw, err = json.MarshalIndent(obj, "", "  ")
 	} else {
 		raw, err = orderedyaml.Marshal(obj)
+	}
+	if _, isOCI := obj.(*oci.Spec); isOCI && format != "json" {
+		// OCI Spec types only have JSON tags, marshal them accordingly
+		raw, err = yaml.Marshal(obj)
 	}
 
 	if err != nil {
